@@ -60,9 +60,19 @@ func (s *Spec) DFA() (*auto.DFA, map[grammar.Terminal][]auto.State, error) {
 		}
 	}
 
+	// Visit the final states in order, so the generated code and the error messages do not depend on map iteration.
+	finals := make([]auto.State, 0, len(stateDefs))
+	for f := range stateDefs {
+		finals = append(finals, f)
+	}
+
+	sort.Quick(finals, auto.CmpState)
+
 	// Map each terminal to a set of final states while ensuring each final state identifies a single terminal.
 	termMap := make(map[grammar.Terminal][]auto.State)
-	for f, defs := range stateDefs {
+	for _, f := range finals {
+		defs := stateDefs[f]
+
 		switch len(defs) {
 		case 0:
 		case 1:
